@@ -14,7 +14,10 @@ RULE = ('cases: operation histories (3-16 ops) over add / add_all (batches of 0-
         'dedup predicates incl. the default relative-distance one and an asymmetric one) and Rosomaxa (initial size 4-6 plus a '
         'malformed stream 0-3, selection size 2-9, elite size 1-3, node size 1-3, exploration ratio e/64); individuals are '
         '(id, key, tag, weight) with few distinct keys so ties, near-duplicates and strictly better late arrivals are frequent. '
-        'non-trivial = history in which an offered individual was dropped (dedup / truncation / comparable-filter) or the phase changed.')
+        'One case in eight instead runs the real evolution loop (EvolutionSimulator + Iterative + TelemetryHeuristicContext) over such a population, '
+        'seeded with 0-3 initial solutions (+ operator-created ones) and scripted offspring for 1-9 generations (oracle only). '
+        'non-trivial = history in which an offered individual was dropped (dedup / truncation / comparable-filter) or the phase changed, '
+        'or an evolution of more than one generation.')
 TRUSTED = ['slice::sort_by is a stable sort (std documentation): modelled by stable insertion sort',
            'Vec::dedup_by(same_bucket(a, b)) passes the current element as a and the last retained one as b and removes a (std documentation); '
            'Vec::truncate / Iterator::{take, chain, filter_map} semantics',
@@ -211,6 +214,9 @@ def gen_rosomaxa_ops(rng, u, cfg):
 def generate(rng, tier, n):
     cases = []
     for k in range(n):
+        if k % 40 == 7:
+            cases.append(gen_solve(rng.fork('solve%d' % k)))
+            continue
         r = rng.below(100)
         if r < 20:
             kind = 'greedy'
@@ -234,8 +240,68 @@ def generate(rng, tier, n):
                    'rebalance': rng.range(2, 8), 'er': rng.choice([0, 16, 32, 40, 48, 58, 60, 64])}
             two = rng.chance(1, 2)
             ops = gen_rosomaxa_ops(rng, u, cfg)
-        cases.append({'kind': kind, 'cfg': cfg, 'two': two, 'seed': rng.below(1 << 30), 'ops': ops})
+        if rng.chance(1, 8):
+            cases.append(gen_evo(rng, u, kind, cfg, two))
+        else:
+            cases.append({'kind': kind, 'cfg': cfg, 'two': two, 'seed': rng.below(1 << 30), 'ops': ops})
     return cases
+
+
+def gen_solve(rng):
+    """end to end: a small pragmatic problem (index locations, integer matrix and integer cost coefficients, so every fitness value
+    is an exactly represented integer), solved unseeded for gens0 generations, the solution written and read back through the
+    pragmatic initial-solution reader and used to seed a short second solve"""
+    import json as _json
+    n = rng.range(3, 7)
+    pts = [(rng.below(30), rng.below(30)) for _ in range(n + 1)]
+    dist = [abs(a[0] - b[0]) + abs(a[1] - b[1]) for a in pts for b in pts]
+    jobs = []
+    for i in range(1, n + 1):
+        place = {'location': {'index': i}, 'duration': rng.choice([0, 5, 10])}
+        if rng.chance(1, 3):
+            st = rng.below(200)
+            place['times'] = [['2020-01-01T00:%02d:%02dZ' % (st // 60, st % 60), '2020-01-01T01:%02d:%02dZ' % (st // 60, st % 60)]]
+        jobs.append({'id': 'j%d' % i, 'deliveries': [{'places': [place], 'demand': [rng.range(1, 3)]}]})
+    nveh = rng.range(1, 3)
+    problem = {'plan': {'jobs': jobs},
+               'fleet': {'vehicles': [{'typeId': 'v', 'vehicleIds': ['v_%d' % (k + 1) for k in range(nveh)], 'profile': {'matrix': 'car'},
+                                       'costs': {'fixed': rng.choice([0, 10, 50]), 'distance': 1, 'time': rng.choice([0, 1])},
+                                       'shifts': [{'start': {'earliest': '2020-01-01T00:00:00Z', 'location': {'index': 0}},
+                                                   'end': {'latest': '2020-01-01T08:00:00Z', 'location': {'index': 0}}}],
+                                       'capacity': [rng.range(3, 8)]}],
+                         'profiles': [{'name': 'car'}]}}
+    matrix = {'profile': 'car', 'travelTimes': dist, 'distances': dist}
+    return {'kind': 'solve', 'problem': _json.dumps(problem), 'matrix': _json.dumps(matrix), 'gens0': rng.range(5, 40),
+            'gens': rng.range(1, 3), 'init_size': rng.choice([1, 1, 2, 4]), 'pop': rng.choice(['greedy', 'elitism', 'default', 'default']),
+            'sel': rng.choice([1, 2, 4]), 'ops': []}
+
+
+def gen_evo(rng, u, kind, cfg, two):
+    """the real evolution loop (EvolutionSimulator + Iterative + TelemetryHeuristicContext) over the population, seeded with
+    initial solutions; offspring of every generation are scripted"""
+    if kind == 'rosomaxa' and cfg['initial'] < 4:
+        cfg = dict(cfg, initial=4)
+    if kind != 'rosomaxa' and cfg['sel'] == 0:
+        cfg = dict(cfg, sel=1)
+    n_init = rng.choice([0, 1, 1, 2, 3])
+    inits = [u.ind() for _ in range(n_init)]
+    max_init = max(1, rng.choice([n_init, n_init, n_init + 1, n_init + 2, max(n_init - 1, 1)]))
+    created = [u.ind() for _ in range(max(0, max_init - n_init))]
+    gens = rng.range(1, 9)
+    best = min([x[1] for x in inits + created])
+    offspring = []
+    for g in range(gens + 2):
+        k = rng.choice([0, 1, 2, 2, 3, 4])
+        # mostly worse than the seed, sometimes better
+        xs = []
+        for _ in range(k):
+            x = u.ind(best if rng.chance(1, 6) else None)
+            if rng.chance(2, 3) and x[1] <= best:
+                x[1] = best + rng.range(1, 4)
+            xs.append(x)
+        offspring.append(xs)
+    return {'kind': kind, 'evo': True, 'cfg': cfg, 'two': two, 'seed': rng.below(1 << 30), 'inits': inits, 'created': created,
+            'max_init': max_init, 'gens': gens, 'want': rng.range(1, 3), 'offspring': offspring, 'ops': []}
 
 
 def corpus():
@@ -281,6 +347,10 @@ def zop(o):
 
 
 def model_term(c):
+    if c['kind'] == 'solve':
+        return None   # the vrp-core search is not modelled: oracle only
+    if c.get('evo'):
+        return None   # statistics (speed) depend on wall-clock time: the loop is checked by the oracle only (theorem C08_seeded_never_worse covers every statistics sequence)
     ops = lst(c['ops'], zop)
     cfg = c['cfg']
     if c['kind'] == 'greedy':
@@ -331,7 +401,59 @@ def expects_panic(c):
     return c['kind'] == 'rosomaxa' and c['cfg']['initial'] < 4
 
 
+def oracle_evo(c, impl):
+    kind = c['kind']
+    if 'panic' in impl:
+        return [{'class': '%s-evo-panic' % kind, 'what': 'evolution panicked: ' + impl['panic'][:200]}]
+    v = []
+    seeds = c['inits'][:c['max_init']] + c['created'] + (c['cfg']['best'] if kind == 'greedy' else [])
+    if [p[0] for p in impl['created']] != [x[0] for x in c['created']]:
+        return [{'class': 'harness-evo-created-mismatch', 'what': 'initial operator calls %s, expected %s' % (impl['created'], c['created'])}]
+    ngen = len(impl['parents'])
+    offered = {x[0]: x[1] for x in seeds}
+    res = impl['result']
+    for g in range(ngen):
+        for p in impl['parents'][g]:
+            if offered.get(p[0]) != p[1]:
+                v.append({'class': '%s-evo-parent-not-offered' % kind, 'what': 'generation %d: parent %s was never offered' % (g, p)})
+        if not impl['parents'][g]:
+            v.append({'class': '%s-evo-no-parents' % kind, 'what': 'generation %d: nothing selected from a seeded population' % g})
+        for x in c['offspring'][g] if g < len(c['offspring']) else []:
+            offered[x[0]] = x[1]
+    if not res:
+        v.append({'class': '%s-evo-no-result' % kind, 'what': 'seeded evolution returned no solution'})
+        return v[:3]
+    keys = [p[1] for p in res]
+    if keys[0] > min(x[1] for x in seeds):
+        v.append({'class': '%s-evo-result-worse-than-initial' % kind,
+                  'what': 'result %s is worse than an initial solution (keys %s)' % (res[0], [x[1] for x in seeds])})
+    elif kind != 'greedy' and keys[0] > min(offered.values()):
+        v.append({'class': '%s-evo-best-lost' % kind, 'what': 'result %s is worse than offered minimum %d' % (res[0], min(offered.values()))})
+    if any(a > b for a, b in zip(keys, keys[1:])) or len(res) > c['want']:
+        v.append({'class': '%s-evo-result-unsorted-or-too-long' % kind, 'what': 'result %s' % res})
+    for p in res:
+        if offered.get(p[0]) != p[1]:
+            v.append({'class': '%s-evo-result-not-offered' % kind, 'what': 'result individual %s was never offered' % p})
+    return v[:3]
+
+
+def oracle_solve(c, impl):
+    if 'panic' in impl:
+        return [{'class': 'solve-panic', 'what': 'seeded solve panicked: ' + impl['panic'][:300]}]
+    v = []
+    if impl['result_vs_given'] > 0:
+        why = 'initial-reader-degrades-solution' if impl['read_vs_given'] > 0 else 'result-worse-than-initial'
+        v.append({'class': 'solve-seeded-%s-%s' % (why, c['pop']),
+                  'what': 'seeded solve returned fitness %s, the initial solution had %s (as read back: %s)' % (
+                      impl['fit_result'], impl['fit_given'], impl['fit_read'])})
+    return v
+
+
 def oracle(c, impl):
+    if c['kind'] == 'solve':
+        return oracle_solve(c, impl)
+    if c.get('evo'):
+        return oracle_evo(c, impl)
     if 'panic' in impl:
         if expects_panic(c):
             return []
@@ -353,6 +475,8 @@ def oracle(c, impl):
     slow = False
     prev_best = None
     lost_before = False
+    size_before = False
+    unsorted_before = False
     for k, (o, g) in enumerate(zip(c['ops'], impl['trace'])):
         batch = []
         if o['op'] == 'add':
@@ -368,10 +492,12 @@ def oracle(c, impl):
         where = 'op %d (%s)' % (k, o['op'])
         ph = ('-p%d' % g['phase']) if kind == 'rosomaxa' else ''
         # ranking sorted
-        if any(a > b for a, b in zip(keys, keys[1:])) or any(x > 0 for x in g['first_cmp']):
+        if (any(a > b for a, b in zip(keys, keys[1:])) or any(x > 0 for x in g['first_cmp'])) and not unsorted_before:
+            unsorted_before = True
             add('%s%s-ranked-unsorted-after-%s' % (kind, ph, o['op']), '%s: ranked keys %s not sorted' % (where, keys))
         # size within bounds, size == what ranked shows
-        if g['size'] > max_size(c):
+        if g['size'] > max_size(c) and not size_before:
+            size_before = True
             add('%s%s-size-above-max-after-%s' % (kind, ph, o['op']), '%s: size %d > configured %d' % (where, g['size'], max_size(c)))
         if g['size'] != len(ranked):
             add('%s%s-size-differs-from-ranked' % (kind, ph), '%s: size %d but ranked has %d' % (where, g['size'], len(ranked)))
@@ -408,6 +534,10 @@ def oracle(c, impl):
 def nontrivial_key(c, impl):
     if 'panic' in impl:
         return None
+    if c['kind'] == 'solve':
+        return ('solve', c['problem'], c['gens0'], c['gens'], c['pop'])
+    if c.get('evo'):
+        return ('evo', c['kind'], str(c['cfg']), str(c['inits']), str(c['offspring'])) if len(impl['parents']) > 1 else None
     n_off = sum(1 if o['op'] == 'add' else len(o['xs']) if o['op'] == 'add_all' else 0 for o in c['ops'])
     tr = impl['trace']
     if not tr:
@@ -421,6 +551,12 @@ def nontrivial_key(c, impl):
 
 def classify(c, impl):
     labs = ['kind=' + c['kind']]
+    if c['kind'] == 'solve':
+        if 'panic' not in impl:
+            labs.append('solve-result-vs-initial=%d' % impl['result_vs_given'])
+        return labs + ['solve-pop=' + c['pop']]
+    if c.get('evo'):
+        return labs + ['evo', 'evo-' + c['kind']]
     if c['kind'] == 'elitism':
         labs.append('dedup=%d' % c['cfg']['dedup'])
     if 'panic' in impl:
@@ -444,7 +580,7 @@ _SHRINK_BUDGET = [120]   # shrink rounds per process: a broken tree yields hundr
 
 def shrink_candidates(c):
     _SHRINK_BUDGET[0] -= 1
-    if _SHRINK_BUDGET[0] < 0:
+    if _SHRINK_BUDGET[0] < 0 or c.get('evo') or c['kind'] == 'solve':
         return
     ops = c['ops']
     for i in range(len(ops)):
